@@ -52,7 +52,11 @@ def run(ck, m):
         return None
     flushes = []
     for bi, t in wb.calls():
-        if callee_decl(t) == 'std::io::Write::flush':
+        # BufWriter::seek / stream_position / rewind / into_inner write the buffer out first: they are flushes in disguise
+        recv_ty = wb.locals[(t['args'][0].get('m') or t['args'][0].get('c') or {'l': 0})['l']] if t['args'] and (t['args'][0].get('m') or t['args'][0].get('c')) else ''
+        hidden = callee_decl(t) in ('std::io::Seek::seek', 'std::io::Seek::stream_position', 'std::io::Seek::rewind', 'std::io::BufWriter::into_inner') \
+            and 'BufWriter' in (t['f'].get('dargs', '') + recv_ty)
+        if callee_decl(t) == 'std::io::Write::flush' or hidden:
             base = codec.ultimate_local(wb, (t['args'][0].get('m') or t['args'][0].get('c'))['l'])
             prod = producer_of(base)
             # field-sensitive: the writers may travel together in a struct (`out.values_file.flush()`)
